@@ -45,8 +45,11 @@ FAMILIES = ["scalar", "scalar", "scalar_matrix1", "blocks", "matrix_fd", "mask",
 def plan(tier, seed):
     rng = rng_for(7, seed)
     fams = ["bosons", "fermions", "mixed", "spin", "ladder", "bosons", "ladder", "fermions"]
-    return [dict(case=int(rng.integers(0, 2**31)), family=FAMILIES[i % len(FAMILIES)], modes=fams[i % len(fams)], thorough=(tier == "thorough"))
-            for i in range(BUDGET[tier]["cases"])]
+    cases = [dict(case=int(rng.integers(0, 2**31)), family=FAMILIES[i % len(FAMILIES)], modes=fams[i % len(fams)], thorough=(tier == "thorough"))
+             for i in range(BUDGET[tier]["cases"])]
+    # the recorded failing input of known finding F23 is part of every run: it is reported as KNOWN-FINDING while the
+    # library returns the wrong vacuum element, and simply holds once the library is repaired
+    return [dict(case=23, family="matrix_fd", modes="bosons", thorough=False, witness="F23")] + cases
 
 
 def _reference(M, H0m, H1m, keep, orders):
@@ -64,6 +67,67 @@ def _reference(M, H0m, H1m, keep, orders):
         return ref_solve({(0,): np.diag(E).astype(complex), (1,): H1m}, keep, orders, hermitian=True, exact=False)
 
 
+def _phantom_states(M, ops, H0b, kdim, reach):
+    """Known finding F23: states (i, n) of the model whose level E_i(n) equals the analytic continuation E_j(n + s) of a
+    level at an occupation that does not exist (negative boson occupation, fermion / spin occupation outside {0, 1}) for
+    some shift |s_k| <= reach.  The library keeps energy denominators as rational functions of the number operators and
+    lets sympy cancel N / N, which is wrong exactly on such states."""
+    import itertools
+
+    from pymablock.number_ordered_form import LadderOp, NumberOperator
+
+    m = len(ops)
+    syms = [sympy.Symbol(f"occ{k}", real=True) for k in range(m)]
+    rep = {NumberOperator(o): x for o, x in zip(ops, syms)}
+    fs = []
+    for i in range(kdim):
+        e = sympy.sympify(H0b[i][i]).xreplace(rep)
+        if e.free_symbols - set(syms) or e.atoms(sympy.Function):
+            return None
+        fs.append(sympy.lambdify(syms, e, "numpy"))
+    occ = M.occ.astype(float)
+    D = M.D
+    Ephys = [np.broadcast_to(np.asarray(f(*occ.T), dtype=float), (D,)) for f in fs]
+    bounded = [None if isinstance(o, LadderOp) else (np.inf if isinstance(o, BosonOp) else 1) for o in ops]
+    out = np.zeros(kdim * D, bool)
+    rng_ = range(-reach, reach + 1)
+    for s in itertools.product(*[rng_ if b is not None else (0,) for b in bounded]):
+        if not any(s):
+            continue
+        tgt = occ + np.array(s, float)
+        unphys = np.zeros(D, bool)
+        for k, b in enumerate(bounded):
+            if b is not None:
+                unphys |= (tgt[:, k] < 0) | (tgt[:, k] > b)
+        if not unphys.any():
+            continue
+        for j in range(kdim):
+            Ej = np.broadcast_to(np.asarray(fs[j](*tgt.T), dtype=float), (D,))
+            for i in range(kdim):
+                hit = unphys & (np.abs(Ephys[i] - Ej) < 1e-9)
+                out[i * D:(i + 1) * D] |= hit
+    return out
+
+
+def _attributable(bad, sel, phantom, H1m, order):
+    """every mismatching element (x, y) lies on a chain of at most `order` perturbation steps through a phantom state"""
+    if phantom is None or not phantom.any():
+        return False
+    N = len(phantom)
+    A = (np.abs(H1m) > 1e-14) | np.eye(N, dtype=bool)
+    dist = np.full((N, N), np.inf)
+    cur = np.eye(N, dtype=bool)
+    for d in range(order + 1):
+        dist[cur & np.isinf(dist)] = d
+        cur = (cur.astype(float) @ A.astype(float)) > 0
+    P = np.where(phantom)[0]
+    for x, y in np.argwhere(bad):
+        gx, gy = sel[x], sel[y]
+        if not np.min(dist[gx, P] + dist[P, gy]) <= order:
+            return False
+    return True
+
+
 def run_case(spec):
     from pymablock import block_diagonalize
     from pymablock.number_ordered_form import LadderOp, NumberOperator, generator_types
@@ -74,7 +138,7 @@ def run_case(spec):
     family = spec["family"]
     g = sympy.Symbol("g", real=True)
     ops = secondq.modes(rng, spec["modes"] if family in ("scalar", "scalar_matrix1") else "bosons" if family == "mask" else str(rng.choice(["bosons", "mixed", "spin", "ladder"])))
-    if family in ("mask", "bigmatrix"):
+    if family in ("mask", "bigmatrix") or spec.get("witness"):
         ops = [BosonOp("a")]
     if family == "mask2":
         ops = [BosonOp("a"), BosonOp("b")] if rng.random() < 0.6 else [BosonOp("a"), pauli.SigmaMinus("s")]
@@ -177,13 +241,16 @@ def run_case(spec):
                     delta = secondq.R(0)
                     coup = [lo, lo**2][int(rng.integers(2))]
                     counters["matrix_fd_identical_h0_entries"] += 1
+                if spec.get("witness") == "F23":
+                    nb_ = NumberOperator(ops[0])
+                    h0, delta, coup = 2 * nb_ + nb_**2 + secondq.R(1, 2), secondq.R(-1), lo + hi
                 H0b = [[h0 + delta / 2, 0], [0, h0 - delta / 2]]
                 if family == "mask":
                     coup = lo + hi
                     mask_conserving = bool(rng.random() < 0.35)
                     if mask_conserving:
                         coup = lo + hi + secondq.R(int(rng.integers(1, 4)), 2)  # plus a number-conserving coupling
-                diag1 = h1 if rng.random() < 0.5 and family != "mask" else 0
+                diag1 = h1 if rng.random() < 0.5 and family != "mask" and not spec.get("witness") else 0
                 H1b = [[diag1, coup], [Dagger(coup), -diag1 if diag1 != 0 else 0]]
                 H0M, H1M = sympy.Matrix(H0b), sympy.Matrix(H1b)
                 deg = max(deg if diag1 != 0 else 1, 2 if coup.is_Add and coup.has(sympy.Mul) or coup.is_Pow else 1)
@@ -310,17 +377,32 @@ def run_case(spec):
                 raise Inconclusive("sympy/lambdify recursion limit while denoting a very large output expression")
             except Exception as e:  # noqa: BLE001
                 raise Violation(f"evaluating {('H_tilde', 'U', 'U^dagger')[s]} raised {type(e).__name__}: {e} for H_0={H0b}, H_1={H1b}")
+        known_f23 = None
         for q, name in ((0, "H_tilde"), (1, "U")):
             for n in orders:
                 A = lib[q][n][np.ix_(sel, sel)]
                 B = ref[q][n][np.ix_(sel, sel)]
-                err = float(np.abs(A - B).max(initial=0))
+                with np.errstate(all="ignore"):
+                    diff = np.abs(A - B)
+                err = float(diff.max(initial=0))
                 counters["matrix_elements_compared"] += A.size
-                if not np.isfinite(err) or err > 1e-7 * max(1.0, float(np.abs(B).max(initial=0))):
-                    raise Violation(
+                tol_ = 1e-7 * max(1.0, float(np.abs(B).max(initial=0)))
+                if not np.isfinite(err) or err > tol_:
+                    msg = (
                         f"{name} at order {n}: matrix elements between low Fock states differ from the matrix block diagonalisation by {err:.3e}; "
                         f"family={family}, ops={ops}, H_0={H0b}, H_1={H1b}"
                     )
+                    # classify: known finding F23 (a level resonant with the continuation of a level at a non-existent
+                    # occupation: sympy cancels N / N in the operator product) or a new violation
+                    phantom = _phantom_states(M, ops, H0b, kdim, max_order * max(1, deg))
+                    if _attributable(~(diff <= tol_), sel, phantom, mats[1], n[0]):
+                        known_f23 = known_f23 or msg
+                        continue
+                    raise Violation(msg)
+        if known_f23 is not None:
+            counters[f"family_{family}"] += 1
+            return dict(verdict="known", finding="F23", detail=known_f23, sig=[family, [str(o) for o in ops], str(h1)[:60], str(H1b)[:40], max_order],
+                        nontrivial=max_order >= 2, counters=dict(counters))
         # adjoint pairing and Hermiticity of the operator-valued outputs (C02 in the operator algebra), through the denotation
         for n in orders:
             Ud, Un, Hn = lib[2][n][np.ix_(sel, sel)], lib[1][n][np.ix_(sel, sel)], lib[0][n][np.ix_(sel, sel)]
